@@ -547,11 +547,23 @@ class AsyncHTTP2Connection(AsyncConnectionInterface):
             # The stream has already ended, or has never been opened.
             stream_was_reset = False
 
+        # Data that has arrived for the stream, and that nobody is going to read
+        # now, has used up flow control credit of the connection all the same.
+        # Return it, or responses that are given up early eventually leave the
+        # server unable to send to any stream.
+        unread = sum(
+            event.flow_controlled_length
+            for event in self._events[stream_id]
+            if isinstance(event, h2.events.DataReceived)
+        )
+        if unread and self._connection_terminated is None:
+            self._h2_state.acknowledge_received_data(unread, stream_id)
+
         await self._release_stream_slot()
         del self._events[stream_id]
         await self._request_closed()
 
-        if stream_was_reset:
+        if stream_was_reset or unread:
             try:
                 await self._write_outgoing_data(request)
             except Exception:
